@@ -1219,8 +1219,11 @@ def gen_spl(rng, tier):
                     # the one they leave; a non-linear exponent on a multiple-direction graph is refused)
                     toks = []
                     for _ in range(rng.randint(1, 2)):
-                        if rng.random() < 0.7:
+                        r3 = rng.random()
+                        if r3 < 0.55:
                             toks.append("set:n:" + hx(rng.choice([1.0, 1.0, 2.0, 1.5, 0.8])))
+                        elif r3 < 0.8:
+                            toks.append("set:k:" + hx(rng.choice([0.0, 1e-5, 1e-3, 2e-2])))
                         else:
                             toks.append("set:m:" + hx(rng.choice([0.3, 0.5, 1.0])))
                     sets = " 1 " + " ".join(toks)
